@@ -331,7 +331,7 @@ fn case_block(ctx: &mut Ctx, rt: &tokio::runtime::Runtime, b: &Block, bt: BlockT
                     fails.push("block signature verdict differs after the wire".into());
                 }
             }
-            if bt != BlockType::Header && signer.is_some() {
+            if bt != BlockType::Header && signer.is_some() && d.transactions.iter().all(|t| t.txs_replacements <= 1) {
                 // merkle root over the transaction hashes (replacements are 1 in signed blocks)
                 let mut o = b.clone();
                 for t in o.transactions.iter_mut().chain(d.transactions.iter_mut()) {
